@@ -46,6 +46,7 @@ def main():
     ap.add_argument("--only", default="")
     ap.add_argument("--runs", type=int, default=6000)
     ap.add_argument("--jobs", type=int, default=4)
+    ap.add_argument("--benign", action="store_true")
     ap.add_argument("--patch")
     ap.add_argument("--property", default="")
     args = ap.parse_args()
@@ -53,6 +54,19 @@ def main():
         props = [args.property] if args.property else ["C18", "C19"]
         print(json.dumps(run_one(os.path.abspath(args.patch), props, args.runs, 16), indent=1))
         return 0
+    if args.benign:
+        bdir = os.path.join(HERE, "benign")
+        res = {}
+        for f in sorted(os.listdir(bdir)):
+            if f.endswith(".patch") and args.only in f:
+                r = run_one(os.path.join(bdir, f), ["C18", "C19"], args.runs, 16)
+                res[f] = r
+                print("%-60s %s" % (f, {p: (r[p]["exit"], r[p]["clauses"]) for p in r if isinstance(r[p], dict)}))
+                sys.stdout.flush()
+        json.dump(res, open(os.path.join(bdir, "RESULTS.json"), "w"), indent=1, sort_keys=True)
+        alarms = [f for f, r in res.items() if any(isinstance(v, dict) and v["exit"] != 0 for v in r.values())]
+        print("%d benign variants, alarms on: %s" % (len(res), alarms))
+        return 1 if alarms else 0
     index = json.load(open(os.path.join(MUT, "INDEX.json")))
     todo = [m for m in index if args.only in m["name"]]
     import concurrent.futures as cf
